@@ -3,7 +3,7 @@
    Model/Memo1D.v, on the contiguous index blocks the engine passes.  The recursion, the cache dict and the writes
    into next_state stay the hand-written model's (and the correspondence's). *)
 From Coq Require Import ZArith List Arith Lia.
-From CPL Require Import Model.Base Model.Memo1D gen.GenFuns_C03 GenProps.GenFunsEquivC03.
+From CPL Require Import Model.Base Model.Rules Model.Evolve1D Model.Memo1D gen.GenFuns_C03 GenProps.GenFunsEquivC03.
 Import ListNotations.
 
 Theorem C03_source_translation_agrees :
@@ -12,8 +12,12 @@ Theorem C03_source_translation_agrees :
      = Ok (Z.of_nat start, wrap_take curr (Z.of_nat start - Z.of_nat r) (len + 2 * r))) /\
   (forall start len : nat,
      src_memo_split (block_idx start len)
-     = (block_idx start (len / 2), block_idx (start + len / 2) (len - len / 2))).
-Proof. split; [exact src_memo_key_agrees | exact src_memo_split_agrees]. Qed.
+     = (block_idx start (len / 2), block_idx (start + len / 2) (len - len / 2))) /\
+  (forall (St : Type) (rule : rule1 St) (s : St) (cache : list (list Z * Z)) (lg : list call1) (n : list Z) (c t : nat),
+     get_memoized rule (s, cache, lg) n c t =
+     (let '((sl, cache'), v) := src_get_memoized (fun n => n) (logged1 rule) (s, lg) n c t cache in
+      ((fst sl, cache', snd sl), v))).
+Proof. split; [exact src_memo_key_agrees | split; [exact src_memo_split_agrees | exact src_get_memoized_agrees]]. Qed.
 
 (* the key read by the source for a block is the ring window of the property: entry i is
    curr[(start - r + i) mod N] (what the memoisation theorems of C03 are stated on), and the two halves of the split
@@ -35,6 +39,6 @@ Qed.
 Theorem C03_src_split_covers : forall start len : nat,
   fst (src_memo_split (block_idx start len)) ++ snd (src_memo_split (block_idx start len)) = block_idx start len.
 Proof.
-  intros start len. rewrite (proj2 C03_source_translation_agrees). cbn [fst snd]. unfold block_idx.
+  intros start len. rewrite (proj1 (proj2 C03_source_translation_agrees)). cbn [fst snd]. unfold block_idx.
   rewrite <- map_app, <- seq_app. f_equal. f_equal. pose proof (Nat.div_le_upper_bound len 2 len). lia.
 Qed.
